@@ -28,8 +28,8 @@ PROFILES = {
     # editing histories with queries and rejected requests (C09, C19)
     "E1": (P("MG", 3, 3, "empty", True, [], "few", False), P("MG", 3, 4, "empty", True, [], "few", False)),
     "E2": (P("CRG", 3, 2, "empty", True, [], "few", False), P("CRG", 3, 3, "empty", True, [], "few", False)),
-    "E3": (P("SMG", 4, 1, "stereo", True, [], "few", False), P("SMG", 4, 2, "stereo", True, [], "few", False)),
-    "E4": (P("SCRG", 4, 1, "stereo", True, [], "few", False), P("SCRG", 4, 2, "stereo", True, [], "few", False)),
+    "E3": (P("SMG", 4, 2, "stereo", True, [], "few", False), P("SMG", 4, 3, "stereo", True, [], "few", False)),
+    "E4": (P("SCRG", 4, 2, "stereo", True, [], "few", False), P("SCRG", 4, 3, "stereo", True, [], "few", False)),
     # derivations + one follow-up edit on either side (C10, C15, C08, C06)
     "D1": (P("MG", 3, 0, "gen", False, ALL_DERIVE, "few", True), P("MG", 3, 1, "gen", False, ALL_DERIVE, "few", True)),
     "D2": (P("CRG", 2, 0, "gen", False, ALL_DERIVE, "few", True), P("CRG", 3, 0, "gen", False, ALL_DERIVE, "few", True)),
@@ -112,13 +112,15 @@ def run_profile(args):
 
     cap = CAPS[tier]
     t_start = time.time()
+    seen_lines = [0]
 
     def on_line(pre, obj):
         if pre == "I":
             eng.add_initial(obj)
         else:
             eng.transition(obj)
-            if eng.n_trans >= cap[0] or (eng.n_trans % 256 == 0 and time.time() - t_start > cap[1]):
+            seen_lines[0] += 1
+            if eng.n_trans >= cap[0] or (seen_lines[0] % 256 == 0 and time.time() - t_start > cap[1]):
                 raise Budget()
 
     # the I| payload is valid JSON and would be parsed by run_tlc; keep raw text instead
@@ -262,7 +264,9 @@ def classify_record(r, verdict):
     allowed = sorted(verdict["allowed"]) if verdict else []
     props = set()
     must_raise = allowed == ["raise"]
-    if must_raise or (name in QUERIES and "raise" in allowed):
+    raised_but_changed = r.get("out") == "raise" and verdict is not None and verdict.get("outcome") and not verdict.get("post")
+    if must_raise or (name in QUERIES and "raise" in allowed) or raised_but_changed or \
+            (verdict is None and r.get("out") in ("raise", "ans")):
         props.add("C19")
     if name in ("relabel_inplace", "relabel_copy"):
         props.add("C11")
@@ -321,6 +325,11 @@ def collect(prop: str, tier: str, rep: Reporter, with_traces=True) -> dict:
     for r in results:
         if "error" in r:
             raise MachineryError(f"profile {r['name']}: {r['error']}")
+        tot_lines = r["transitions_replayed"] + r["skipped"]
+        if tot_lines and r["transitions_replayed"] < 0.4 * tot_lines and not any(prop in f["props"] for f in r["fails"]):
+            # most transitions had no source representative although nothing failed: the harness lost track of states
+            raise MachineryError(f"profile {r['name']}: only {r['transitions_replayed']} of {tot_lines} generated transitions "
+                                 f"were executed (coverage collapse in the replay engine)")
         states += r["states"]
         trans += r["generated"]
         replayed += r["transitions_replayed"]
